@@ -53,6 +53,21 @@ class Falsy:
         return "Falsy(%d)" % self.i
 
 
+class AllEqual:
+    """Payloads that all compare equal (and hash alike): two versions of one record."""
+    def __init__(self, i):
+        self.i = i
+
+    def __eq__(self, other):
+        return isinstance(other, AllEqual)
+
+    def __hash__(self):
+        return 7
+
+    def __repr__(self):
+        return "AllEqual(%d)" % self.i
+
+
 # Payload codes for `case["payloads"]` (arrival i uses payloads[i-1]; '-' or past the end = the
 # case's default kind).  The singletons are used at most once per case, so every arrival is still
 # recognised by IDENTITY — the oracle never looks at truthiness or equality of a payload.
@@ -380,13 +395,39 @@ class Exec:
             self.error = e
             self.finish()
 
+    def make_payload(self, i):
+        """payload object of arrival i; always a fresh object (recognised by identity).  'ndarray' / 'frame': objects whose == does
+        not yield a bool (an implementation must not compare payloads); 'equal': every payload == every other one."""
+        k = self.payload_kind
+        if k == "falsy":
+            return Falsy(i)
+        if k == "str":
+            return "v%d" % i
+        if k == "ndarray":
+            import numpy as np
+            return np.array([i, i + 1])
+        if k == "frame":
+            import pandas as pd
+            return pd.DataFrame({"x": [i, i + 1]})
+        if k == "equal":
+            return AllEqual(i)
+        return [i]
+
+    def emit_arrival(self, p, ref):
+        """source.emit for an arrival: latest.update must take whatever the payload is"""
+        try:
+            self.source.emit(p, metadata=[{"ref": ref}])
+        except Exception as e:      # noqa: BLE001
+            self.problems.append(("latest-emit-raised", "latest: the emit of arrival %d (payload kind %r) raised %s: %s"
+                                  % (len(self.arrivals), self.payload_kind, type(e).__name__, e)))
+
     def new_element(self):
         i = len(self.arrivals) + 1
         code = self.payloads[i - 1] if i <= len(self.payloads) else "-"
         if code in SPECIAL:
             p = SPECIAL[code]()
         else:
-            p = Falsy(i) if self.payload_kind == "falsy" else ("v%d" % i if self.payload_kind == "str" else [i])
+            p = self.make_payload(i)
         ref = self.RefCounter()
         self.arrivals.append(p)
         self.refs.append(ref)
@@ -404,7 +445,7 @@ class Exec:
         if self.reattached:
             self.arrivals_after_reattach += 1
         self.events.append("rearrive")
-        self.source.emit(p, metadata=[{"ref": ref}])
+        self.emit_arrival(p, ref)
 
     def emit_nowhere(self):
         """The producer emits while the latest node is detached: the element reaches nobody."""
@@ -442,7 +483,7 @@ class Exec:
             self.busy_arrivals += 1
         elif not self.cond._waiters and self.steps:
             self.gap_arrivals += 1
-        self.source.emit(p, metadata=[{"ref": ref}])
+        self.emit_arrival(p, ref)
         self.record("a", "A")
 
     def do_done(self):
@@ -567,7 +608,7 @@ def gen_case(rng):
         modes = "S"
     else:
         modes = rng.choice(["A", "A", "A", "AS", "SA", "AAS", "".join(rng.choice("AS") for _ in range(5))])
-    case = {"tokens": "".join(toks), "modes": modes, "payload": rng.choice(["idx", "idx", "falsy", "str"]),
+    case = {"tokens": "".join(toks), "modes": modes, "payload": rng.choice(["idx", "idx", "falsy", "str", "ndarray", "frame", "equal"]),
             "style": style}
     if style == "rewire" or rng.random() < 0.15:
         case["detach_via"] = rng.choice(["disconnect", "disconnect", "destroy"])
@@ -626,6 +667,9 @@ CORPUS = [
     {"tokens": "hahhaahhh", "modes": "S", "payload": "falsy", "style": "corpus:sync"},
     {"tokens": "hahhahdhh", "modes": "A", "payload": "falsy", "style": "corpus:falsy"},
     {"tokens": "", "modes": "A", "payload": "idx", "style": "corpus:no-input"},
+    {"tokens": "hahhaaahhhd", "modes": "A", "payload": "ndarray", "style": "corpus:arrays-burst-while-busy"},
+    {"tokens": "aaahhdhhd", "modes": "A", "payload": "frame", "style": "corpus:frames-one-turn"},
+    {"tokens": "hahhaaahhhdhhd", "modes": "A", "payload": "equal", "style": "corpus:equal-payloads-while-busy"},
     # re-entrant arrivals: the consumer emits the next element while it is being handed the current one
     # (feedback cycle); synchronous consumer / slow consumer that feeds back before it starts waiting
     {"tokens": "rrrah", "modes": "S", "payload": "idx", "style": "corpus:feedback-sync"},
